@@ -281,6 +281,16 @@ def replay(job, v):
         total = cum[-1]
         # query distances: fractions of the real track covering the interesting spots
         fr = [0.0, 0.3, 1.0] + [c / total for c in cum[1:-1]] + ([1.02, 1.4] if allow else [])
+        if op == 'step':
+            # documented refusal: negative arguments (also when the sum is still on the track)
+            for a, b in ((0.5 * total, -0.2 * total), (-0.1 * total, 0.3 * total), (0.9 * total, -0.9 * total)):
+                try:
+                    pt = gt.step(a, b)
+                    return True, f'step({a:.1f}, {b:.1f}) on {wp} allow_overstep={allow} returned a point ({pt.location.longitude:.4f}, {pt.location.latitude:.4f}) instead of refusing a negative argument'
+                except GroundTrack.Exception:
+                    pass
+                except Exception as e:  # noqa
+                    return True, f'step({a},{b}) raised {e!r}'
         for fa in fr:
             for fb in ([0.0] if op == 'location' else [0.0, 0.15, 0.5]):
                 a, b = fa * total, fb * total
